@@ -180,7 +180,7 @@ pub fn gen_program(rng: &mut Rng, max_items: usize) -> Prog {
     let mut ram_used = 0u32;
     let negative = if g.rng.chance(1, 12) { Some("org-backward") } else { None };
     let mut neg_done = false;
-    let mut big_gap_done = false;
+    let mut big_gaps = 0u32;
     for i in 0..n_items {
         // segment switch
         if g.rng.chance(1, 4) {
@@ -202,9 +202,12 @@ pub fn gen_program(rng: &mut Rng, max_items: usize) -> Prog {
                 0 => 0, // .org to the current position
                 1 => 1,
                 // now and then a gap of more than 64 Ki words in flash (no device: 4 Mi words) - once per program
-                2 if seg == Seg::Code && g.device.is_none() && !big_gap_done && g.rng.chance(1, 6) => {
-                    big_gap_done = true;
-                    *g.rng.pick(&[0xffffu32, 0x10000, 0x10001, 0x18000, 0x20000, 0x2ffff]) + g.rng.below(3) as u32
+                2 if seg == Seg::Code && g.device.is_none() && big_gaps < 3 && g.rng.chance(1, if big_gaps == 0 { 6 } else { 2 }) => {
+                    // (a program that has one such gap often gets a second and a third: gaps behind an image that
+                    // is long already, of its length, half of it, one and a half times it)
+                    big_gaps += 1;
+                    let long = if big_gaps > 1 && cur > 0x10000 { *g.rng.pick(&[cur, cur / 2, cur - 0x10000, cur + cur / 2, 0x10000]) } else { 0 };
+                    (*g.rng.pick(&[0xffffu32, 0x10000, 0x10001, 0x18000, 0x20000, 0x2ffff])).max(long.min(0x80000)) + g.rng.below(3) as u32
                 }
                 _ => 1 + g.rng.below(if seg == Seg::Data { 6 } else { 40 }) as u32,
             };
